@@ -50,10 +50,12 @@ MCNext ==
         \/ /\ WithFaults /\ sending /\ failIn = -1 /\ sender = "alive"
            /\ \E k \in 0..1 : CSetSendFail(k) /\ H([a |-> "sendfail", n |-> k]) /\ UNCHANGED nid
         \/ /\ conn = "up" /\ UNCHANGED cvars /\ H([a |-> "await"]) /\ UNCHANGED nid
+        \* the application acknowledges a result - alone, or while the receiver is handling the next response
+        \/ /\ \E i \in handed : CAck(i) /\ H([a |-> "ack", id |-> i]) /\ UNCHANGED nid
         \/ /\ WithFaults /\ conn = "up" /\ CReset /\ H([a |-> "reset"]) /\ UNCHANGED nid
 
 MCSpec == MCInit /\ [][MCNext]_mcvars
-View == <<cfg, conn, sending, sendq, sent, lost, pend, pendElec, pendParams, results, sendErrs, recvErrs, sender, receiver, failIn, n, nid>>
+View == <<cfg, conn, sending, sendq, sent, lost, pend, pendElec, pendParams, results, sendErrs, recvErrs, sender, receiver, failIn, acked, n, nid>>
 Complete == n = MaxSteps
 Emit == (EmitOn /\ Complete) => PrintT("@@" \o ToJson(hist \o << [a |-> "await"], [a |-> "close"] >>))
 =============================================================================
